@@ -26,7 +26,6 @@ Rec == ndJsonDeserialize(IOEnv.TRACE)
 \* constants of ExecManager, from the trace / unbounded
 TraceREQ    == {Rec[i].id : i \in {j \in 1..Len(Rec) : Rec[j].a = "Accept"}}
 TraceNat    == Nat
-TracePos    == Nat \ {0}
 TraceSIDE   == {"buy", "sell"}
 TraceBUNDLE == {"lim", "mkt", "lim_po", "ioc"}
 
